@@ -200,48 +200,54 @@ def d3(ctx, rep):
     for s in walk_no_nested(init.node):
         if isinstance(s, ast.Assign) and is_self_attr(s.targets[0], init.self_name) and isinstance(s.value, ast.Name) and s.value.id in init.params:
             opt[s.value.id] = s.targets[0].attr
+    from ..idioms import private_closure
+    closure = private_closure(ctx, fit, tg)
     for pname, attr in sorted(opt.items()):
         if pname == 'random_state':
             continue
-        # locals initialised from self.<attr>
-        locs = [s for s in walk_no_nested(fit.node) if isinstance(s, ast.Assign) and isinstance(s.targets[0], ast.Name)
-                and is_self_attr(s.value, fit.self_name, attr)]
-        direct = [x for x in walk_no_nested(fit.node) if is_self_attr(x, fit.self_name, attr) and isinstance(x.ctx, ast.Load)]
-        if not locs and not direct:
+        readers = [g for g in closure if any(is_self_attr(x, g.self_name, attr) and isinstance(x.ctx, ast.Load) for x in walk_no_nested(g.node))]
+        if not readers:
             rep.bad('D3.bounds', fit, fit.node.name, f'the user option self.{attr} is never read by _fit: a supplied bound is ignored', construct=f'self.{attr} honoured')
             continue
         ok = True
         why = ''
-        for loc in locs:
-            var = loc.targets[0].id
-            for s in walk_no_nested(fit.node):
-                if isinstance(s, ast.Assign) and isinstance(s.targets[0], ast.Name) and s.targets[0].id == var and s is not loc:
-                    gs = guard_chain(s, fit.node)
-                    guarded = any(is_none_test(t) is not None and isinstance(is_none_test(t)[0], ast.Name) and is_none_test(t)[0].id == var
-                                  and is_none_test(t)[1] == pol for t, pol in gs)
+        anchor = None
+        for g in readers:
+            # locals initialised from self.<attr>
+            locs = [s for s in walk_no_nested(g.node) if isinstance(s, ast.Assign) and isinstance(s.targets[0], ast.Name)
+                    and is_self_attr(s.value, g.self_name, attr)]
+            direct = [x for x in walk_no_nested(g.node) if is_self_attr(x, g.self_name, attr) and isinstance(x.ctx, ast.Load)]
+            anchor = anchor or (locs[0] if locs else direct[0])
+            for loc in locs:
+                var = loc.targets[0].id
+                for s in walk_no_nested(g.node):
+                    if isinstance(s, ast.Assign) and isinstance(s.targets[0], ast.Name) and s.targets[0].id == var and s is not loc:
+                        gs = guard_chain(s, g.node)
+                        guarded = any(is_none_test(t) is not None and isinstance(is_none_test(t)[0], ast.Name) and is_none_test(t)[0].id == var
+                                      and is_none_test(t)[1] == pol for t, pol in gs)
+                        if not guarded:
+                            ok = False
+                            why = f'`{short(s, 50)}` replaces the user-supplied {pname} unconditionally'
+            for s in walk_no_nested(g.node):
+                if isinstance(s, ast.Assign) and any(is_self_attr(t, g.self_name, attr) for t in s.targets):
+                    gs = guard_chain(s, g.node)
+                    guarded = any(is_none_test(t) is not None and is_self_attr(is_none_test(t)[0], g.self_name, attr) and is_none_test(t)[1] == pol for t, pol in gs)
                     if not guarded:
                         ok = False
-                        why = f'`{short(s, 50)}` replaces the user-supplied {pname} unconditionally'
-        for s in walk_no_nested(fit.node):
-            if isinstance(s, ast.Assign) and any(is_self_attr(t, fit.self_name, attr) for t in s.targets):
-                gs = guard_chain(s, fit.node)
-                guarded = any(is_none_test(t) is not None and is_self_attr(is_none_test(t)[0], fit.self_name, attr) and is_none_test(t)[1] == pol for t, pol in gs)
-                if not guarded:
+                        why = f'`{short(s, 50)}` overwrites the user-supplied {pname}'
+            # a numeric bound must be selected by None-ness, never by truthiness: 0 is a legitimate bound
+            aliases = {loc.targets[0].id for loc in locs}
+            for x in walk_no_nested(g.node):
+                is_opt = (is_self_attr(x, g.self_name, attr) or (isinstance(x, ast.Name) and x.id in aliases)) and isinstance(getattr(x, 'ctx', None), ast.Load)
+                if not is_opt:
+                    continue
+                par = x._parent
+                truthy = isinstance(par, ast.BoolOp) or (isinstance(par, ast.UnaryOp) and isinstance(par.op, ast.Not)) \
+                    or (isinstance(par, (ast.If, ast.IfExp, ast.While)) and par.test is x)
+                if truthy:
                     ok = False
-                    why = f'`{short(s, 50)}` overwrites the user-supplied {pname}'
-        # a numeric bound must be selected by None-ness, never by truthiness: 0 is a legitimate bound
-        aliases = {loc.targets[0].id for loc in locs}
-        for x in walk_no_nested(fit.node):
-            is_opt = (is_self_attr(x, fit.self_name, attr) or (isinstance(x, ast.Name) and x.id in aliases)) and isinstance(getattr(x, 'ctx', None), ast.Load)
-            if not is_opt:
-                continue
-            par = x._parent
-            truthy = isinstance(par, ast.BoolOp) or (isinstance(par, ast.UnaryOp) and isinstance(par.op, ast.Not)) \
-                or (isinstance(par, (ast.If, ast.IfExp, ast.While)) and par.test is x)
-            if truthy:
-                ok = False
-                why = f'`{short(par, 60)}` selects the {pname} bound by truthiness: a user-supplied bound of 0 is treated as absent'
-        rep.check('D3.bounds', fit, locs[0] if locs else direct[0], ok, f'{pname}: data-driven value only when the option is None', why,
+                    why = f'`{short(par, 60)}` selects the {pname} bound by truthiness: a user-supplied bound of 0 is treated as absent'
+        rep.check('D3.bounds', readers[0], anchor, ok, f'{pname}: data-driven value only when the option is None', why,
                   construct=f'self.{attr} honoured')
     # the standardised bounds a, b are computed from the corresponding (user or data-driven) bound
     from ..kinds import DepKind
@@ -267,15 +273,25 @@ def d4(ctx, rep):
     prog = ctx.prog
     kde = prog.cls(KDE)
     n = 0
-    for m in kde.methods.values():
+    fns = list(kde.methods.values()) + [f for f in prog.functions.values() if f.module is kde.module and f.cls is None and f.outer is None]
+    for m in fns:
         for c in walk_no_nested(m.node):
             if isinstance(c, ast.Call) and prog.resolve(m.module, c.func) == 'scipy.stats.gaussian_kde':
                 n += 1
                 bw, w = kwarg(c, 'bw_method', 1), kwarg(c, 'weights', 2)
-                good = is_self_attr(bw, m.self_name, 'bw_method') and is_self_attr(w, m.self_name, 'weights')
-                rep.check('D4.kde', m, c, good, 'gaussian_kde(..., bw_method=self.bw_method, weights=self.weights)',
-                          'a kernel estimate is built without the configured bw_method / weights: the requested bandwidth rule is ignored')
-    rep.floor('D4.kde', 'gaussian_kde constructions', n, 2)
+                opt = lambda e, a: isinstance(e, ast.Attribute) and e.attr == a and isinstance(e.value, ast.Name) \
+                    and (e.value.id == m.self_name or e.value.id in m.params)
+                if bw is None or w is None:
+                    rep.bad('D4.kde', m, c, 'a kernel estimate is built without the configured bw_method / weights: the requested bandwidth rule is ignored')
+                elif opt(bw, 'bw_method') and opt(w, 'weights'):
+                    rep.ok('D4.kde', m, c, 'gaussian_kde(..., bw_method=<model>.bw_method, weights=<model>.weights)')
+                elif (isinstance(bw, ast.Attribute) and bw.attr != 'bw_method') or (isinstance(w, ast.Attribute) and w.attr != 'weights') \
+                        or isinstance(bw, ast.Constant) or isinstance(w, ast.Constant):
+                    rep.bad('D4.kde', m, c, 'a kernel estimate is built without the configured bw_method / weights: the requested bandwidth rule is ignored')
+                else:
+                    rep.undecided('D4.kde', m, c, 'where the bandwidth rule / weights of this kernel estimate come from is not derived')
+    if n == 0:
+        rep.undecided('D4.kde', kde.methods.get('_fit') or next(iter(kde.methods.values())), 'GaussianKDE', 'no gaussian_kde(...) construction found in the module of GaussianKDE')
     gm = kde.methods['_get_model']
     calls = [c for c in walk_no_nested(gm.node) if isinstance(c, ast.Call) and prog.resolve(gm.module, c.func) == 'scipy.stats.gaussian_kde']
     if calls:
@@ -286,14 +302,56 @@ def d4(ctx, rep):
     fit = kde.methods['_fit']
     xp = fit.params[1]
     ds = params_dicts(fit)
+
+    def derives(e, seen=()):
+        """True: the value is the training data (or a resample of a kernel estimate built from it); False: it is
+        something else that was recognised; None: not derivable."""
+        if isinstance(e, ast.Name):
+            if e.id == xp and not any(isinstance(a, ast.Assign) and any(isinstance(t, ast.Name) and t.id == xp for t in a.targets)
+                                      for a in walk_no_nested(fit.node)):
+                return True
+            if e.id in seen:
+                return None
+            defs = [a.value for a in walk_no_nested(fit.node) if isinstance(a, ast.Assign) and any(isinstance(t, ast.Name) and t.id == e.id for t in a.targets)]
+            if e.id == xp:
+                rs = [derives_rhs(d, seen + (e.id,)) for d in defs]
+                return True if all(r is True for r in rs) else (False if any(r is False for r in rs) else None)
+            if not defs:
+                return None
+            rs = [derives(d, seen + (e.id,)) for d in defs]
+            return True if all(r is True for r in rs) else (False if any(r is False for r in rs) else None)
+        return derives_rhs(e, seen)
+
+    def derives_rhs(e, seen):
+        if isinstance(e, ast.Name):
+            return True if e.id == xp else derives(e, seen)
+        if isinstance(e, ast.Call) and isinstance(e.func, ast.Attribute) and e.func.attr in ('tolist', 'copy', 'ravel', 'flatten', 'astype', 'to_numpy') :
+            return derives_rhs(e.func.value, seen)
+        if isinstance(e, ast.Call) and isinstance(e.func, ast.Attribute) and e.func.attr == 'resample' and isinstance(e.func.value, ast.Call) \
+                and e.func.value.args:
+            return derives_rhs(e.func.value.args[0], seen)
+        if isinstance(e, ast.Call) and call_name(e) in ('array', 'asarray') and e.args:
+            return derives_rhs(e.args[0], seen)
+        if isinstance(e, ast.Subscript):
+            return derives_rhs(e.value, seen)
+        if isinstance(e, ast.Call) and call_name(e) in ('unique', 'sort', 'sorted', 'round', 'around', 'clip', 'abs', 'floor', 'ceil', 'percentile',
+                                                        'quantile', 'mean', 'median', 'linspace', 'arange', 'histogram'):
+            return False  # reorders the points (weights no longer line up), changes their multiplicity or replaces them
+        if isinstance(e, (ast.Constant, ast.List, ast.Tuple, ast.BinOp)):
+            return False
+        return None
+
     if ds:
         s, d = ds[0]
         v = d.get('dataset')
-        good = isinstance(v, ast.Call) and call_name(v) == 'tolist' and isinstance(v.func.value, ast.Name) and v.func.value.id == xp
-        rep.check('D4.kde', fit, s, good, 'dataset = the training data (or its resample)', 'the stored dataset is not the training data', construct='stored dataset')
+        r = derives_rhs(v, ()) if v is not None else None
+        if r is None:
+            rep.undecided('D4.kde', fit, s, 'what the stored dataset is computed from is not derived', construct='stored dataset')
+        else:
+            rep.check('D4.kde', fit, s, r, 'dataset = the training data (or its resample)', 'the stored dataset is not the training data', construct='stored dataset')
     # resample branch: guarded by sample_size and of that size
     for s in walk_no_nested(fit.node):
-        if isinstance(s, ast.Assign) and isinstance(s.targets[0], ast.Name) and s.targets[0].id == xp:
+        if isinstance(s, ast.Assign) and isinstance(s.targets[0], ast.Name) and any(isinstance(c, ast.Call) and call_name(c) == 'resample' for c in ast.walk(s.value)):
             rs = [c for c in ast.walk(s.value) if isinstance(c, ast.Call) and call_name(c) == 'resample']
             gs = guard_chain(s, fit.node)
             guarded = any(is_self_attr(t, fit.self_name, '_sample_size') and pol for t, pol in gs)
